@@ -196,7 +196,7 @@ def pos_fn():
               contract='__CPROVER_requires(VP_NUL_AT_OR_AFTER(s) && g_big_size >= 1 && g_big_size <= 100001 && __CPROVER_OBJECT_SIZE(g_big) == g_big_size && __CPROVER_POINTER_OFFSET(g_big) == 0) '
                        '__CPROVER_assigns(has_errors_, g_opt, __CPROVER_object_whole(g_big))',
               subst=[(r'fmt::internal::MemoryBuffer<char, 50> name;', 'char *name;', 1),
-                     (r'name\.resize\(name_size \+ 1\);', 'name = vp_buffer_resize(name_size + 1);', 1),
+                     (r'name\.resize\(([^;]*)\);', r'name = vp_buffer_resize(\1);', 1),       # the size expression is kept as written
                      (r'SolverOption \*opt = ', 'struct SolverOption *opt = ', 1),
                      (r'opt->Parse\(s, ', 'VP_NOT_A_QUERY(s); VP_NOT_FLAG_WITH_VALUE(equal_sign, opt); vp_opt_Parse(&s, ', 3),
                      (r'opt->is_flag\(\)', 'vp_opt_is_flag(opt)', 2),
